@@ -1442,20 +1442,14 @@ func c10CrashScenarios(tier string) []*CrashScenario {
 	if tier != "quick" {
 		sizes = append(sizes, [2]uint32{64, 1}, [2]uint32{bigFile, bigFile})
 	}
+	// (the whole set costs a few seconds: quick and thorough differ only in
+	// the histories legacyHistories adds for thorough)
 	hists := legacyHistories(tier)
-	cuts := []int{0, 3}
-	if tier == "quick" {
-		hists = hists[:3]
-	} else {
-		cuts = []int{0, 3, 20}
-		sizes = append(sizes, [2]uint32{24, 36}, [2]uint32{44, 24})
-	}
+	cuts := []int{0, 3, 20}
+	sizes = append(sizes, [2]uint32{24, 36}, [2]uint32{44, 24})
 	for hi, hist := range hists {
 		for _, sz := range sizes {
 			for _, cut := range cuts {
-				if tier == "quick" && cut != 0 && hi == 2 {
-					continue
-				}
 				ls, err := buildLegacy(8, hist, cut, true)
 				if err != nil {
 					continue
